@@ -198,36 +198,26 @@ Theorem C11_nlpadmm_dual_residual : forall (K : Type) (NK : Num K) (SK : Sqrt K)
 Proof. intros. apply Spec_NLPADMM.dual_residual_follows_doc; assumption. Qed.
 Print Assumptions C11_nlpadmm_dual_residual.
 
-(** LinearizedADMM / ADMM norm_primal_residual(x).  FULL STATEMENT (refuted on the unchanged
-    tree, Findings/C11_residual_arg.v):
-      forall s x, norm_primal_residual_gen__x s x = primal_residual_doc s x.
-    What holds: without argument it is the documented expression at the current iterate; with
-    an argument the argument is ignored (so the documented value only if x is the iterate). *)
-(** no argument: documented expression at the current iterate *)
-Theorem C11_ladmm_primal_residual_current : forall (K : Type) (NK : Num K) (SK : Sqrt K) (X : Type) (VX : VecOps K X) (Z : Type) (VZ : VecOps K Z) (s : C11_Ladmm.st K X Z),
-  C11_Ladmm.norm_primal_residual_gen__none s = Spec_LADMM.primal_residual_doc s (C11_Ladmm.la_x s).
-Proof. intros. apply Spec_LADMM.primal_residual_current; assumption. Qed.
-Print Assumptions C11_ladmm_primal_residual_current.
+(** LinearizedADMM / ADMM norm_primal_residual: without argument the documented expression at
+    the current iterate; with an argument the documented expression AT THAT ARGUMENT, for every
+    state and every x (ADMM: sqrt(sum_i rho_i ||C_i x - z_i||^2)).  /repo 51ad458 repaired the
+    code, which evaluated the residual at self.x whatever was passed. *)
 
-(** restricted to the region where the full statement holds *)
-Theorem C11_ladmm_primal_residual_restricted : forall (K : Type) (NK : Num K) (SK : Sqrt K) (X : Type) (VX : VecOps K X) (Z : Type) (VZ : VecOps K Z) (s : C11_Ladmm.st K X Z) (x : X),
-  x = C11_Ladmm.la_x s -> C11_Ladmm.norm_primal_residual_gen__x s x = Spec_LADMM.primal_residual_doc s x.
-Proof. intros. apply Spec_LADMM.primal_residual_arg_restricted; assumption. Qed.
-Print Assumptions C11_ladmm_primal_residual_restricted.
+(** || C x - z || at the iterate / at the argument *)
+Theorem C11_ladmm_primal_residual : forall (K : Type) (NK : Num K) (SK : Sqrt K) (X : Type) (VX : VecOps K X) (Z : Type) (VZ : VecOps K Z) (s : C11_Ladmm.st K X Z),
+  C11_Ladmm.norm_primal_residual_gen__none s = Spec_LADMM.primal_residual_doc s (C11_Ladmm.la_x s) /\
+  (forall x : X, C11_Ladmm.norm_primal_residual_gen__x s x = Spec_LADMM.primal_residual_doc s x).
+Proof. intros. apply Spec_LADMM.primal_residual_follows_doc; assumption. Qed.
+Print Assumptions C11_ladmm_primal_residual.
 
-(** no argument: documented expression at the current iterate *)
-Theorem C11_admm_primal_residual_current : forall (K : Type) (NK : Num K) (SK : Sqrt K) (X : Type) (VX : VecOps K X) (Z : Type) (VZ : VecOps K Z) (s : C11_Admm.st K X Z),
-  C11_Admm.norm_primal_residual_gen__none s = Spec_ADMM.primal_residual_doc s (C11_Admm.ad_x s).
-Proof. intros. apply Spec_ADMM.primal_residual_current; assumption. Qed.
-Print Assumptions C11_admm_primal_residual_current.
+(** sqrt(sum_i rho_i || C_i x - z_i ||^2) at the iterate / at the argument *)
+Theorem C11_admm_primal_residual : forall (K : Type) (NK : Num K) (SK : Sqrt K) (X : Type) (VX : VecOps K X) (Z : Type) (VZ : VecOps K Z) (s : C11_Admm.st K X Z),
+  C11_Admm.norm_primal_residual_gen__none s = Spec_ADMM.primal_residual_doc s (C11_Admm.ad_x s) /\
+  (forall x : X, C11_Admm.norm_primal_residual_gen__x s x = Spec_ADMM.primal_residual_doc s x).
+Proof. intros. apply Spec_ADMM.primal_residual_follows_doc; assumption. Qed.
+Print Assumptions C11_admm_primal_residual.
 
-(** restricted to the region where the full statement holds *)
-Theorem C11_admm_primal_residual_restricted : forall (K : Type) (NK : Num K) (SK : Sqrt K) (X : Type) (VX : VecOps K X) (Z : Type) (VZ : VecOps K Z) (s : C11_Admm.st K X Z) (x : X),
-  x = C11_Admm.ad_x s -> C11_Admm.norm_primal_residual_gen__x s x = Spec_ADMM.primal_residual_doc s x.
-Proof. intros. apply Spec_ADMM.primal_residual_arg_restricted; assumption. Qed.
-Print Assumptions C11_admm_primal_residual_restricted.
-
-(** LinearizedADMM norm_dual_residual.  FULL STATEMENT (refuted, Findings/C11_residual_arg.v):
+(** LinearizedADMM norm_dual_residual.  FULL STATEMENT (refuted, Findings/C11_ladmm_dual_residual.v):
       forall s, norm_dual_residual_gen s = || z - z_old ||   (the documented expression).
     The code returns || C^H (z - z_old) ||. *)
 (** documented value where C^H preserves the norm of z - z_old *)
